@@ -132,6 +132,106 @@ def _check_outer(facts, sign, helper, hbody, h_some_blocks, qlocal):
     return True, None
 
 
+def _limit_edges(body, t, r, c, limit):
+    """(ok_edge, fail_edge) of a switch on `x <op> c` when the test is exactly x < limit, else None"""
+    false_t = [z[1] for z in t[2] if int(z[0]) == 0]
+    true_t = t[3]
+    f0 = false_t[0] if false_t else None
+    if r == "Ge" and c == limit:
+        return f0, true_t
+    if r == "Lt" and c == limit:
+        return true_t, f0
+    if r == "Gt" and c == limit - 1:
+        return f0, true_t
+    if r == "Le" and c == limit - 1:
+        return true_t, f0
+    return None
+
+
+def succ_helper(facts, tgt, limit):
+    """`fn next(q: u32) -> Option<u32>`: Some(q + 1) exactly on the edge q < limit, None otherwise (pure, private).
+    -> True / False"""
+    if tgt is None or tgt.get("reach") or tgt["argc"] < 1:
+        return False
+    rt = facts.ty(tgt["locals"][0][0])
+    if not rt.get("s", "").startswith(("core::option::Option<u32", "std::option::Option<u32", "core::option::Option<u", "std::option::Option<u")):
+        return False
+    params = [i for i in range(1, tgt["argc"] + 1) if facts.ty(tgt["locals"][i][0]).get("k") == "uint"]
+    if len(params) != 1:
+        return False
+    p = params[0]
+    b = Body(tgt)
+
+    def is_p(op):
+        l = operand_local(op)
+        for _ in range(6):
+            if l is None:
+                return False
+            if l == p:
+                return True
+            d = b.single_def(l)
+            if d and d[2] == "A" and d[3][2][0] == "use":
+                l = operand_local(d[3][2][1])
+            else:
+                return False
+        return False
+    # no stores through references, no calls other than the checked/wrapping add
+    guard = None
+    ev = FnEval(facts, b)
+    for bi in b.reach:
+        for st in b.blocks[bi]["s"]:
+            if st[0] == "A" and len(st[1]) > 1 and "*" in st[1][1:]:
+                return False
+        t = b.blocks[bi]["t"]
+        if t[0] == "call" and not re.search(r"::(checked|wrapping)_add$", t[1]["f"]):
+            return False
+        if t[0] == "switch":
+            l = operand_local(t[1])
+            d = b.single_def(l) if l is not None else None
+            if d and d[2] == "A" and d[3][2][0] == "bin" and d[3][2][1] in ("Ge", "Lt", "Gt", "Le") and is_p(d[3][2][2]):
+                c = const_int(d[3][2][3])
+                if c is None:
+                    iv = ev.op_ival(d[3][2][3])
+                    c = int(iv[0]) if iv is not None and iv[0] == iv[1] else None
+                e = _limit_edges(b, t, d[3][2][1], c, limit) if c is not None else None
+                if e is None or guard is not None:
+                    return False
+                guard = e
+            elif d is not None:
+                # any other branch (e.g. on the overflow flag of checked_add lowered inline) is not expected here
+                return False
+    if guard is None or guard[0] is None:
+        return False
+    ok_edge, fail_edge = guard
+    some = 0
+    for bi in b.reach:
+        blk = b.blocks[bi]
+        for st in blk["s"]:
+            if st[0] == "A" and st[1] == [0]:
+                rv = st[2]
+                if rv[0] == "agg" and rv[1].get("variant") == 0:
+                    continue            # None
+                if rv[0] == "agg" and rv[1].get("variant") == 1 and rv[2]:
+                    x = operand_local(rv[2][0])
+                    d = b.single_def(x) if x is not None else None
+                    if d and d[2] == "A" and d[3][2][0] == "bin" and d[3][2][1] in ("Add", "AddUnchecked") and is_p(d[3][2][2]) \
+                            and const_int(d[3][2][3]) == 1 and b.dominates(ok_edge, bi):
+                        some += 1
+                        continue
+                    if d and d[2] == "call" and re.search(r"::wrapping_add$", d[3][1]["f"]) and is_p(d[3][2][0]) and const_int(d[3][2][1]) == 1 \
+                            and b.dominates(ok_edge, bi):
+                        some += 1
+                        continue
+                return False
+        t = blk["t"]
+        if t[0] == "call" and t[3] == [0]:
+            if re.search(r"::checked_add$", t[1]["f"]) and is_p(t[2][0]) and const_int(t[2][1]) == 1 and b.dominates(ok_edge, bi):
+                some += 1
+            else:
+                return False
+    return some >= 1
+
+
 def run_lmsstate(facts, run, prop="C16"):
     cfg = facts.config
     mods = sorted(set(m.group(1) for n in facts.by_name for m in [re.match(r"(crrl::lms::[A-Za-z0-9_]+)::PrivateKey::sign$", norm_name(n))] if m))
@@ -254,6 +354,64 @@ def run_lmsstate(facts, run, prop="C16"):
                             else:
                                 break
                         qlocal = ql
+        helper_guard = None
+        if not okv:
+            # `let next = Self::next_leaf(q)?; self.current_leaf = next;` -- the successor and its bound test live in a pure
+            # private helper; `?` (or a match) hands over the payload only on the helper's Some edge
+            rv0 = st[2]
+            pl0 = rv0[1][1] if rv0[0] == "use" and rv0[1][0] in ("cp", "mv") else None
+            for _ in range(6):
+                if pl0 is None or len(pl0) != 1:
+                    break
+                d0 = body.single_def(pl0[0])
+                if d0 and d0[2] == "A" and d0[3][2][0] == "use" and d0[3][2][1][0] in ("cp", "mv"):
+                    pl0 = d0[3][2][1][1]
+                else:
+                    break
+            if pl0 is not None and len(pl0) == 3 and isinstance(pl0[1], list) and pl0[1][0] == "d" and isinstance(pl0[2], list) and pl0[2][0] == "f":
+                carrier = pl0[0]
+                dc = body.single_def(carrier)
+                call_t = None
+                if dc and dc[2] == "call" and dc[3][1]["f"].endswith("Try>::branch") and dc[3][2]:
+                    inner = operand_local(dc[3][2][0])
+                    di = body.single_def(inner) if inner is not None else None
+                    if di and di[2] == "call":
+                        call_t = di[3]
+                elif dc and dc[2] == "call":
+                    call_t = dc[3]
+                tgt = facts.fns.get(call_t[1].get("id")) if call_t is not None and call_t[1].get("l") else None
+                if tgt is not None and succ_helper(facts, tgt, limit):
+                    qa = [a_ for a_ in call_t[2] if operand_local(a_) is not None]
+                    for a_ in qa:
+                        l = operand_local(a_)
+                        o = _chase_copy(body, l)
+                        if o[0] == "place" and o[1][0] == 1 and any(isinstance(e, list) and e[0] == "f" and e[1] == fidx for e in o[1][1:]):
+                            ql = l
+                            while True:
+                                dd = body.single_def(ql)
+                                if dd and dd[2] == "A" and dd[3][2][0] == "use" and dd[3][2][1][0] in ("cp", "mv") and len(dd[3][2][1][1]) == 1:
+                                    ql = dd[3][2][1][1][0]
+                                else:
+                                    break
+                            qlocal = ql
+                            okv = True
+                    if okv:
+                        # the edge on which the payload exists: the switch on the carrier's discriminant
+                        want = pl0[1][1]
+                        for bi in body.reach:
+                            t_ = body.blocks[bi]["t"]
+                            if t_[0] != "switch":
+                                continue
+                            dl = operand_local(t_[1])
+                            dd = body.single_def(dl) if dl is not None else None
+                            if dd and dd[2] == "A" and dd[3][2][0] == "discr" and dd[3][2][1] == [carrier]:
+                                tg = dict((int(v_), b_) for v_, b_ in t_[2])
+                                ok_e = tg.get(want, t_[3] if want not in tg else None)
+                                others = [b_ for v_, b_ in t_[2] if int(v_) != want] + ([t_[3]] if want in tg else [])
+                                others = [b_ for b_ in others if body.blocks[b_]["t"][0] != "unreachable"]
+                                helper_guard = ("ok", bi, ok_e, others[0] if others else None, t_[4])
+                        if helper_guard is None:
+                            okv = False
         if not okv:
             bad("S2", "the stored value is not (entry value of current_leaf) + 1", sign, st[3])
             continue
@@ -327,8 +485,8 @@ def run_lmsstate(facts, run, prop="C16"):
             run.discharged += 1
         # ---- S4 / S5: guard edge ----
         run.oblige(ok=False)
-        guard = None
-        for bi in body.reach:
+        guard = helper_guard
+        for bi in (body.reach if helper_guard is None else []):
             t = body.blocks[bi]["t"]
             if t[0] != "switch":
                 continue
